@@ -443,7 +443,7 @@ def build(tier):
     return CheckSpec(
         [
             Sub("fixed", run_case, cases=cases_fixed, exhaustive=True, note="each activity alone and all together, shutdown at every collected instant", workers={"quick": 11, "thorough": 11}),
-            Sub("generated", run_case, strategy=_scenario, budget={"quick": 240, "thorough": 6000}, max_wall={"quick": 60, "thorough": 1800}, workers={"quick": 12, "thorough": 16}),
+            Sub("generated", run_case, strategy=_scenario, budget={"quick": 240, "thorough": 4000}, max_wall={"quick": 60, "thorough": 1800}, workers={"quick": 12, "thorough": 16}),
         ],
         RULE,
         assumptions=[
